@@ -175,7 +175,9 @@ archive_write_ar_header(struct archive_write *a, struct archive_entry *entry)
 	 * we need first write the ar global header.
 	 */
 	if (!ar->wrote_global_header) {
-		__archive_write_output(a, "!<arch>\n", 8);
+		ret = __archive_write_output(a, "!<arch>\n", 8);
+		if (ret != ARCHIVE_OK)
+			return (ret);
 		ar->wrote_global_header = 1;
 	}
 
